@@ -90,7 +90,7 @@ FormatR(t, i, args, acc) ==
                                ELSE FormatR(t, i + 2, Tail(args), acc \o Display(a)))
          ELSE IF c = 111 THEN (IF IsV(a, "num") THEN FormatR(t, i + 2, Tail(args), acc \o OctToCp(a.num))
                                ELSE VErr("format: ~o needs a number"))
-         ELSE (IF IsV(a, "ratio") \/ IsV(a, "num") THEN FormatR(t, i + 2, Tail(args), acc \o Display(a))
+         ELSE (IF IsV(a, "ratio") \/ IsV(a, "num") \/ a = VStr(WDiv0) THEN FormatR(t, i + 2, Tail(args), acc \o Display(a))
                ELSE VErr("format: ~f needs a number"))
     ELSE VErr("format: unsupported directive")
 
